@@ -146,7 +146,7 @@ Collect(L, st, expire) ==
                       ELSE <<"key", k.key, IF Len(k.seq) = 1 THEN b[1] ELSE 0, Or4(k.mod, st)>>
             IN Collect(L, [Emit(st, "key", Len(k.seq), ev, FALSE) EXCEPT !.amb = @ \/ Cardinality(keyC) > 1], expire)
        ELSE IF foc.n > 0 THEN Collect(L, Emit(st, "focus", 3, <<"focus", IF b[3] = 73 THEN 1 ELSE 0>>, st.esc), expire)
-       ELSE IF x11.n > 0 THEN Collect(L, Emit(st, "x11", 6, <<"mouse">>, st.esc), expire)
+       ELSE IF x11.n > 0 THEN Collect(L, Emit(st, "x11", x11.n, <<"mouse">>, st.esc), expire)
        ELSE IF sgr.n > 0 THEN Collect(L, Emit(st, "sgr", sgr.n, <<"mouse">>, st.esc), expire)
        ELSE IF clp.n > 0 THEN Collect(L, Emit(st, "clip", clp.n, <<"clip">>, st.esc), expire)
        ELSE IF ~partial \/ expire THEN
